@@ -235,3 +235,8 @@ Proof.
   - specialize (Hu x z Hx Hz). lia.
   - subst x. simpl in Hz. inversion Hz. lia.
 Qed.
+
+Lemma auto_id_fresh_aux s : Inv s -> ~ In (LInt (h_uid s)) (ekeys (with_uid s (h_uid s + 1))).
+Proof.
+  intros (_ & _ & _ & U) Hi. specialize (U (LInt (h_uid s)) (h_uid s) Hi eq_refl). lia.
+Qed.
